@@ -25,21 +25,15 @@ func streamSizes() {
 		textPads[17_000_000] = true
 		textPads[34_000_000] = true
 	}
-	// an obligation about how input is read no longer checks: look for a length at which the result changes
+	// an obligation about how input is read no longer checks: after the usual sizes, climb a ladder of larger ones and
+	// stop at the first length at which a result changes
 	escalate := os.Getenv("CRD_ESCALATE") != ""
 	slow := time.Duration(1)
-	if escalate {
-		pads = []int{70_000, 1_100_000, 17_000_000, 34_000_000, 68_000_000, 136_000_000, 272_000_000}
-		for _, n := range pads[:6] {
-			textPads[n] = true
-		}
-		slow = 10
-	}
+	ladder := []int{34_000_000, 68_000_000, 136_000_000, 272_000_000}
 	type job struct {
 		name string
 		run  func() []string // violations: "property|what|input|observed"
 	}
-	var jobs []job
 	v := func(props []string, what, input, observed string) []string {
 		var out []string
 		for _, p := range props {
@@ -53,11 +47,11 @@ func streamSizes() {
 		}
 		return fmt.Sprintf("%q", b)
 	}
-	for _, n := range pads {
-		n := n
+	var jobs []job
+	addSize := func(n int, climbing bool) {
 		for _, kind := range []string{"blanks", "comments"} {
 			kind := kind
-			if !textPads[n] {
+			if !textPads[n] && !climbing || climbing && kind == "blanks" {
 				continue
 			}
 			var pad []byte
@@ -92,8 +86,11 @@ func streamSizes() {
 			}
 		}
 		// instances YAML: a long comment in the middle
-		for _, cmd := range [][]string{{"write"}, {"write", "event"}, {"write", "conv", "-c", "cmt"}, {"write", "parse"}} {
+		for ci, cmd := range [][]string{{"write"}, {"write", "event"}, {"write", "conv", "-c", "cmt"}, {"write", "parse"}} {
 			cmd := cmd
+			if climbing && ci != 1 && ci != 2 {
+				continue
+			}
 			head := "- chord: {degree: \"1\", name: \"\"}\n  values: [\"1\"]\n"
 			tail := "- chord: {degree: \"5\", name: \"7\"}\n  values: [\"1/2\"]\n  meta: {txt: \"end\"}\n"
 			pad := []byte("#" + strings.Repeat("x", n) + "\n")
@@ -106,7 +103,10 @@ func streamSizes() {
 						fmt.Sprintf("without: %s %s | with: %s %s", plain.class(), short(plain.stdout), long.class(), short(long.stdout)))
 				}
 				if cmd[len(cmd)-1] != "parse" {
-					for _, nonsense := range []string{"- values: [\"1\"]\n  bpm: 0\n", "- values: [\"0\"]\n", "- chord: {degree: \"1\", name: \"nosuch\"}\n  values: [\"1\"]\n", "- values: [\"1\"]\n  velocity: loud\n"} {
+					for ni, nonsense := range []string{"- values: [\"1\"]\n  bpm: 0\n", "- values: [\"0\"]\n", "- chord: {degree: \"1\", name: \"nosuch\"}\n  values: [\"1\"]\n", "- values: [\"1\"]\n  velocity: loud\n"} {
+						if climbing && ni > 0 {
+							break
+						}
 						bad := runCrd(append(append([]byte(head), pad...), []byte(nonsense)...), slow*180*time.Second, cmd...)
 						if bad.class() != "err" {
 							return v([]string{"C09"}, "nonsense after a long YAML comment is accepted", desc+" followed by "+nonsense,
@@ -117,6 +117,9 @@ func streamSizes() {
 				return nil
 			}})
 		}
+	}
+	for _, n := range pads {
+		addSize(n, false)
 	}
 	// many elements: the last one must still count
 	for _, n := range []int{pick(3000, 40000)} {
@@ -157,11 +160,7 @@ func streamSizes() {
 	}
 	results := make([][]string, len(jobs))
 	// the big inputs are memory-hungry: a few at a time
-	width := 4
-	if escalate {
-		width = 2
-	}
-	sem := make(chan struct{}, width)
+	sem := make(chan struct{}, 4)
 	parallel(len(jobs), func(i int) {
 		sem <- struct{}{}
 		results[i] = jobs[i].run()
@@ -175,6 +174,33 @@ func streamSizes() {
 		}
 	}
 	s.stats["jobs"] = len(jobs)
+	if escalate {
+		slow = 10
+		for _, n := range ladder {
+			jobs = nil
+			addSize(n, true)
+			res := make([][]string, len(jobs))
+			sem := make(chan struct{}, 3)
+			parallel(len(jobs), func(i int) {
+				sem <- struct{}{}
+				res[i] = jobs[i].run()
+				<-sem
+			})
+			found := false
+			for i := range jobs {
+				s.stat("climb-job")
+				for _, line := range res[i] {
+					w := strings.SplitN(line, "|", 4)
+					s.violate(w[0], w[1], w[2], w[3])
+					found = true
+				}
+			}
+			s.stats["climbed-to"] = n
+			if found {
+				break
+			}
+		}
+	}
 }
 
 // `text parse` prints the position of every token; those rightly move with the padding
